@@ -1,11 +1,16 @@
 """C12 error aggregation (ers.Join/Stack/Wrap/ParsePanic, erc.Collector) is lossless and
 errors.Is/As/Unwind-consistent; the Collector is concurrency-correct.
 
-model -> code: spec/errors/ErrAlgebra.tla enumerates error-construction terms and computes the expected
-observation vector from an independent oracle (bag of constituents / set of reachable leaves); vh-errors
-builds every term with the real functions and compares.
-code -> model: sequential driver schedules (CollectorStep.tla) and concurrent runs of erc.Collector are
-recorded and judged by spec/errors/CollectorLinTrace.tla."""
+model -> code: spec/errors/ErrAlgebra.tla enumerates error-construction terms (nil, nil-like typed-nil
+*ers.Stack and the caller's own holey Unwind()/Unwrap() []error composites in every operand position) with an
+observation schedule (observe the result once / observe the composite operands with ers.Unwind while
+building, observe the result, observe operands and result again) and computes the expected observations
+from an independent oracle (bag of constituents / set of reachable leaves); vh-errors builds every term
+with the real functions and compares.
+code -> model: driver schedules (CollectorStep.tla: plain, nil-like and composite Adds, iterators, and
+hold steps that park one Add inside its operand's own Unwind()/Unwrap() method while further operations
+are issued from other goroutines) and concurrent runs of erc.Collector are recorded and judged by
+spec/errors/CollectorLinTrace.tla."""
 import copy, json, random
 from vlib import tlc, harness, replay
 
@@ -56,6 +61,8 @@ def validate_one(history, timeout=300):
 def key_of(info):
     e = (info or {}).get("event", {})
     op = e.get("op")
+    if (info or {}).get("panic"):
+        return "collector/panic"
     if op in ("read", "iter"):
         return "collector/iterator/inconsistent-with-adds"
     if op == "len":
@@ -65,6 +72,19 @@ def key_of(info):
     if op == "final":
         return "collector/final/contents"
     return "collector/history-rejected"
+
+
+def overlapped(h):
+    """was some other operation called between the call and the return of a composite Add (i.e. while it was held)?"""
+    inside = set()
+    for e in h:
+        if e["op"] == "addc" and e["ev"] == "call":
+            inside.add(e["id"])
+        elif e["op"] == "addc" and e["ev"] == "ret":
+            inside.discard(e["id"])
+        elif inside and e["ev"] == "call":
+            return True
+    return False
 
 
 def judge_histories(rep, label, histories, origin, rerun=None, max_confirm=5, parts=SHARDS):
@@ -124,9 +144,14 @@ def run(rep, tier, seed, replay_file=None):
     rep.assumptions += [
         "TLC is sound; the oracle of spec/errors/ErrAlgebra.tla (Cons = bag of supplied constituents, DeepLeaves) is the meaning of C12",
         "fmt.Errorf(%w) and errors.Join of the Go standard library behave as documented",
-        "leaf errors are comparable values with well-behaved Error(); typed-nil pointers are not supplied as errors",
+        "leaf errors are comparable values with well-behaved Error(); the only typed-nil pointer supplied as an error is a nil *ers.Stack "
+        "(as an operand of an aggregator, where the library's own nil-receiver handling promises it is ignored); typed-nil pointers of "
+        "foreign types, and nil-like / holey composites below fmt.Errorf(%w) or as the observed result itself (where the standard "
+        "library, not ers, walks them), are not supplied",
         "exhaustive claims hold for the term sets of the cfg files only (depth/arity/leaf bounds)",
-        "Collector histories: every recorded Add uses a fresh error; concurrent schedules are whatever the Go scheduler produced (seeded GOMAXPROCS/yields), not an enumeration",
+        "Collector histories: every recorded Add uses fresh errors (composites are made of fresh leaves); concurrent schedules are whatever the Go "
+        "scheduler produced (seeded GOMAXPROCS/yields), not an enumeration; hold schedules park an Add only inside the operand's own "
+        "Unwind()/Unwrap() []error method (harness code)",
     ]
     binary = harness.build("vh-errors")
     if replay_file:
@@ -134,23 +159,39 @@ def run(rep, tier, seed, replay_file=None):
 
     # 1. model -> code: terms
     behs = []
+    import concurrent.futures as cf
     plan = [("Terms_d1.cfg", "all terms of depth 1, arity <= 3, 5 leaves + nil", dict(workers=2)),
+            ("Terms_d1x.cfg", "all terms of depth 1, arity <= 3, leaves {s1,t1} + nil + nil *Stack + 5 holey composites; "
+                              "each also with the repeated observation schedule", dict(workers=2)),
             ("Terms_d2q.cfg" if quick else "Terms_d2.cfg", "all terms of depth 2, arity <= 2, leaves {s1,t1} + nil", dict(workers=2))]
-    for cfg, note, kw in plan:
-        b = gen_terms(rep, cfg, note, **kw)
-        if b is None:
-            return
-        behs += b
+    if not quick:
+        plan.append(("Terms_d2x.cfg", "all terms of depth 2, arity <= 2 over {s1, nil, nil *Stack, 2 holey composites}", dict(workers=3)))
     sims = [(12, 1500 if quick else 12000), (24, 300 if quick else 6000)]
-    for steps, num in sims:
-        r = tlc.run_tlc(COMP, "ErrAlgebra", "Sim.cfg", workers=1, simulate=dict(num=num), depth=steps + 2, seed=seed * 100 + steps,
-                        timeout=900, files={"Sim.cfg": open(tlc.SPEC + "/errors/Sim.cfg").read().replace("SimSteps = 12", "SimSteps = %d" % steps)})
-        rep.add_tlc("ErrAlgebra/Sim.cfg", r, "random postfix constructions of %d steps" % steps)
-        if not r.ok:
-            rep.infra_error("term simulation failed: " + r.out[-1500:])
-            return
-        behs += r.tagged.get("BEH", [])
+
+    def sim(steps, num):
+        return tlc.run_tlc(COMP, "ErrAlgebra", "Sim.cfg", workers=1, simulate=dict(num=num), depth=steps + 2, seed=seed * 100 + steps,
+                           timeout=900, files={"Sim.cfg": open(tlc.SPEC + "/errors/Sim.cfg").read().replace("SimSteps = 12", "SimSteps = %d" % steps)})
+
+    with cf.ThreadPoolExecutor(max_workers=6) as ex:
+        fgen = [ex.submit(tlc.run_tlc, COMP, "ErrAlgebra", cfg, timeout=900, **kw) for cfg, note, kw in plan]
+        fsim = [ex.submit(sim, steps, num) for steps, num in sims]
+        for (cfg, note, kw), f in zip(plan, fgen):
+            r = f.result()
+            rep.add_tlc("ErrAlgebra/" + cfg, r, note)
+            if not r.ok:
+                rep.infra_error("term generation %s failed (%s): %s" % (cfg, r.violated, r.out[-1500:]))
+                return
+            behs += r.tagged.get("BEH", [])
+        for (steps, num), f in zip(sims, fsim):
+            r = f.result()
+            rep.add_tlc("ErrAlgebra/Sim.cfg", r, "random postfix constructions of %d steps (nil-like and holey operands included)" % steps)
+            if not r.ok:
+                rep.infra_error("term simulation failed: " + r.out[-1500:])
+                return
+            behs += r.tagged.get("BEH", [])
     behs = replay.dedupe(behs)
+    rep.cov["terms_repeated_observation"] = sum(1 for b in behs if len(b["sched"]) > 1)
+    rep.cov["terms_with_nil_like_or_holey_operand"] = sum(1 for b in behs if any(k in json.dumps(b["term"]) for k in ('"nstack"', '"hun', '"hboth"')))
     rep.cov["exhaustive"] = True
     env = {"GOMAXPROCS": "2"}
     replay.replay(rep, binary, ["replay"], behs, shards=SHARDS, env_extra=env, label="errors",
@@ -167,75 +208,117 @@ def run(rep, tier, seed, replay_file=None):
     w = copy.deepcopy(base); w["groups"] = w["groups"][::-1]; wrong.append(("reversed Unwind order expected", w))
     w = copy.deepcopy(base); w["groups"][0] = w["groups"][0] + ["s2"]; wrong.append(("extra constituent expected", w))
     w = copy.deepcopy(base); w["nonnil"] = False; wrong.append(("nil expected", w))
+    pb = next((b for b in behs if b["term"]["op"] == "join" and any(p["mode"] == "seq" and len(p["ids"]) >= 2 for p in b["probes"])), None)
+    if pb is None:
+        rep.self_test("replayer rejects: wrong operand listing expected", False, "no behaviour with an operand probe generated")
+    else:
+        w = copy.deepcopy(pb)
+        for p in w["probes"]:
+            if p["mode"] == "seq" and len(p["ids"]) >= 2:
+                p["ids"] = p["ids"][::-1] if p["ids"][0] != p["ids"][-1] else p["ids"] + p["ids"][:1]
+        wrong.append(("wrong operand listing expected", w))
     rc, outs, err = harness.run(binary, ["replay"], [dict(n=i, beh=b) for i, (_, b) in enumerate(wrong)], timeout=60)
     res = {o["n"]: o for o in outs if "n" in o}
     for i, (name, _) in enumerate(wrong):
         rep.self_test("replayer rejects: " + name, i in res and not res[i].get("ok"), str(res.get(i))[:160])
 
-    # 2. Collector, sequential driver schedules (code -> model)
+    # 2. Collector, driver schedules (code -> model)
+    rng = random.Random(seed)
+    gens = [  # cfg, note, quick sample, thorough sample (None = all), TLC kwargs
+        ("CStep_all.cfg", "all driver schedules of length 6 (one iterator handle, plain and nil Adds)", 1000, None, dict(workers=2)),
+        ("CStep_comp.cfg", "all schedules of length 5 with composite Adds (errors.Join / holey Unwrap() []error, 0 or 2 leaves) "
+                           "and Add(nil *Stack)", 300, 8000, dict(workers=2)),
+        ("CStep_hold.cfg", "all schedules of length 5 with one held Add (gated Unwind()/Unwrap() []error) and Add/Add(composite)/"
+                           "Len/Resolve issued from other goroutines meanwhile", 400, None, dict(workers=2)),
+        ("CStep_holdit.cfg", "all schedules of length 6 with one held Add and iterators", 150, 5000, dict(workers=2)),
+        ("CStep_edge.cfg", "one shortest schedule per edge (two handles, all Add kinds, holds)", 400, None, dict(workers=2)),
+        ("CStep_sim.cfg", "random schedules of length 16 (three handles, all Add kinds, up to 3 holds)", 500, 4000,
+         dict(workers=1, simulate=dict(num=200 if quick else 3000), depth=17, seed=seed)),
+    ]
     scripts = []
-    r = tlc.run_tlc(COMP, "CollectorStep", "CStep_all.cfg", workers=2, timeout=600)
-    rep.add_tlc("CollectorStep/CStep_all.cfg", r, "all driver schedules of length 6 (one iterator handle)")
-    if not r.ok:
-        rep.infra_error("schedule generation failed: " + r.out[-1500:])
-        return
-    allb = replay.dedupe(r.tagged.get("BEH", []))
-    if quick:
-        random.Random(seed).shuffle(allb)
-        allb = allb[:1500]
-    scripts += allb
-    r = tlc.run_tlc(COMP, "CollectorStep", "CStep_edge.cfg", workers=2, timeout=600)
-    rep.add_tlc("CollectorStep/CStep_edge.cfg", r, "one shortest schedule per edge (two handles)")
-    if r.ok:
-        scripts += r.tagged.get("BEH", [])
-    r = tlc.run_tlc(COMP, "CollectorStep", "CStep_sim.cfg", workers=1, simulate=dict(num=200 if quick else 3000), depth=17,
-                    seed=seed, timeout=600)
-    rep.add_tlc("CollectorStep/CStep_sim.cfg", r, "random schedules of length 16 (three handles)")
-    if r.ok:
-        scripts += r.tagged.get("BEH", [])
+    with cf.ThreadPoolExecutor(max_workers=6) as ex:
+        futs = [ex.submit(tlc.run_tlc, COMP, "CollectorStep", cfg, timeout=600, **kw) for cfg, _, _, _, kw in gens]
+        for (cfg, note, nq, nt, kw), f in zip(gens, futs):
+            r = f.result()
+            rep.add_tlc("CollectorStep/" + cfg, r, note)
+            if not r.ok:
+                rep.infra_error("schedule generation %s failed: %s" % (cfg, r.out[-1500:]))
+                return
+            bs = replay.dedupe(r.tagged.get("BEH", []))
+            lim = nq if quick else nt
+            if lim is not None and len(bs) > lim:
+                rng.shuffle(bs)
+                bs = bs[:lim]
+            rep.cov.setdefault("schedules", {})[cfg] = len(bs)
+            scripts += bs
     scripts = replay.dedupe(scripts)
 
     def run_scripts(ss):
         outs, meta = harness.run_sharded(binary, ["script"], [dict(n=i, beh=s) for i, s in enumerate(ss)], shards=SHARDS)
-        byn = {o["n"]: o["hist"] for o in outs if "hist" in o}
+        byn = {o["n"]: o for o in outs if "n" in o}
         if len(byn) != len(ss):
             rep.infra_error("script runner returned %d of %d histories: %s" % (len(byn), len(ss), meta[0][1][-400:]))
         return [byn.get(i) for i in range(len(ss))]
 
-    hists = run_scripts(scripts)
-    pairs = [(s, h) for s, h in zip(scripts, hists) if h is not None]
+    results = run_scripts(scripts)
+    pairs, npanic = [], 0
+    for sc, o in zip(scripts, results):
+        if o is None:
+            continue
+        if "infra" in o:
+            rep.infra_error("collector/schedules: %s (schedule %s)" % (o["infra"], json.dumps(sc)[:300]))
+        elif "panic" in o:
+            npanic += 1
+            if npanic <= 3:
+                again = run_scripts([sc])[0]          # in isolation
+                if again is not None and "panic" in again:
+                    rep.violation("collector/panic", "the Collector panicked in a driver schedule: %s" % again["panic"],
+                                  dict(schedule=sc, history=again.get("hist"), panic=again["panic"]))
+                else:
+                    rep.infra_error("collector/schedules: a panic did not reproduce in isolation: %s" % o["panic"])
+        elif "hist" in o:
+            pairs.append((sc, o["hist"]))
+    rep.cov["schedules_panicked"] = npanic
 
     def rerun(script):
-        h = run_scripts([script])
-        return h[0]
+        o = run_scripts([script])[0]
+        return o.get("hist") if o and "panic" not in o and "infra" not in o else None
 
-    judge_histories(rep, "collector/schedules", [h for _, h in pairs], [s for s, _ in pairs], rerun=rerun)
-    if pairs:
-        rep.sample(dict(kind="recorded history of a driver schedule", events=pairs[len(pairs) // 2][1][:14]))
+    # 3. Collector, concurrent histories ... and bursts: four goroutines leave a spin barrier together and Add 300 plain errors /
+    # 2-leaf composites each
+    def record(n, procs, seedmul, extra, what):
+        out = []
+        with cf.ThreadPoolExecutor(max_workers=procs) as ex:
+            futs = [ex.submit(harness.run, binary, ["record", str(n // procs), str(seed * seedmul + i)] + extra, None, 600) for i in range(procs)]
+            for f in futs:
+                rc, outs, err = f.result()
+                if rc != 0:
+                    rep.infra_error("%s failed: %s" % (what, err[-800:]))
+                for o in outs:
+                    if "panic" in o:
+                        rep.violation("collector/panic", "%s: %s" % (what, o["panic"]), dict(history=o.get("hist"), panic=o["panic"]))
+                    elif "hist" in o:
+                        out.append(o["hist"])
+        return out
 
-    # 3. Collector, concurrent histories
-    n = 240 if quick else 3000
-    import concurrent.futures as cf
-    rec = []
-    with cf.ThreadPoolExecutor(max_workers=6) as ex:
-        futs = [ex.submit(harness.run, binary, ["record", str(n // 6), str(seed * 1000 + i)], None, 600) for i in range(6)]
-        for f in futs:
-            rc, outs, err = f.result()
-            if rc != 0:
-                rep.infra_error("recorder failed: " + err[-800:])
-            rec += [o["hist"] for o in outs if "hist" in o]
-    judge_histories(rep, "collector/concurrent", rec, [None] * len(rec))
-    # ... and bursts: four goroutines leave a spin barrier together and Add 300 fresh errors each
-    nb = 24 if quick else 200
-    bursts = []
+    rec = record(240 if quick else 3000, 6, 1000, [], "recorder")
+    bursts = record(24 if quick else 200, 3, 777, ["burst"], "burst recorder")
+
     with cf.ThreadPoolExecutor(max_workers=3) as ex:
-        futs = [ex.submit(harness.run, binary, ["record", str(nb // 3), str(seed * 777 + i), "burst"], None, 600) for i in range(3)]
-        for f in futs:
-            rc, outs, err = f.result()
-            if rc != 0:
-                rep.infra_error("burst recorder failed: " + err[-800:])
-            bursts += [o["hist"] for o in outs if "hist" in o]
-    judge_histories(rep, "collector/burst", bursts, [None] * len(bursts), parts=4)
+        jobs = [ex.submit(judge_histories, rep, "collector/schedules", [h for _, h in pairs], [s for s, _ in pairs], rerun, 5, 6 if quick else 5),
+                ex.submit(judge_histories, rep, "collector/concurrent", rec, [None] * len(rec), None, 5, 2 if quick else 3),
+                ex.submit(judge_histories, rep, "collector/burst", bursts, [None] * len(bursts), None, 5, 4)]
+        for j in jobs:
+            j.result()
+    held = [(sc, h) for sc, h in pairs if any(x["op"] == "hold" for x in sc)]
+    if held:
+        rep.sample(dict(kind="recorded history of a driver schedule with a held Add", schedule=held[len(held) // 2][0],
+                        events=held[len(held) // 2][1][:16]))
+    elif pairs:
+        rep.sample(dict(kind="recorded history of a driver schedule", events=pairs[len(pairs) // 2][1][:14]))
+    rep.cov["histories_with_composite_add"] = sum(1 for h in [h for _, h in pairs] + rec + bursts
+                                                  if any(e["op"] in ("addc", "burst") for e in h))
+    rep.cov["histories_with_overlap_during_hold"] = sum(1 for sc, h in held if overlapped(h))
 
     # self-test: a corrupted return value must be rejected by the trace spec
     good = None
@@ -259,21 +342,54 @@ def run(rep, tier, seed, replay_file=None):
         bad[-1]["ids"] = bad[-1]["ids"] + ["e999"]
         ok, info = validate_one(bad)
         rep.self_test("trace spec rejects an invented error in the final Unwind", ok is False, str(info)[:200])
+    # ... and so must a lost update: a leaf of a composite Add that the final contents do not list
+    goodc = next((h for _, h in held if overlapped(h) and len(h[-1]["ids"]) >= 3), None)
+    if goodc is None:
+        rep.self_test("trace spec rejects a lost update after a held composite Add", False, "no hold history with an overlapping operation found")
+    else:
+        ok, info = validate_one(goodc)
+        bad = copy.deepcopy(goodc)
+        bad[-1]["ids"] = bad[-1]["ids"][1:]
+        bad[-1]["res"] = str(int(bad[-1]["res"]) - 1)
+        ok2, info2 = validate_one(bad)
+        rep.self_test("trace spec rejects a lost update after a held composite Add", ok is True and ok2 is False, str(info2)[:200])
 
     rep.cov["rule"] = (
         "terms = every ErrAlgebra term of the cfg bounds (depth 1: arity<=3 over 5 leaves+nil; depth 2: arity<=2 over {s1,t1}+nil) "
         "plus random postfix constructions (12 and 24 steps), each built with the real ers/erc/errors/fmt functions and compared "
         "with the oracle's vector (nil, ers.Ok, errors.Is per leaf/unrelated sentinel, errors.As per type, Unwind as bag and "
         "most-recent-first per direct argument, identity of the single plain case, Len); non-trivial = >= 2 constituents. "
-        "histories = all single-goroutine driver schedules of length 6 over Add/Add(nil)/Len/Resolve/Iterator/ReadOne "
-        "(quick: seeded sample) + edge cover + random longer ones, and concurrent runs of 2-4 goroutines, each validated by "
-        "CollectorLinTrace (Len/Resolve linearizable, iterators and final Unwind hold exactly the added errors)")
+        "Terms also carry nil-like operands (typed-nil *ers.Stack) and holey composites (own Unwind()/Unwrap() []error slices with nil "
+        "holes) in every operand position (depth 1 exhaustively, deeper by simulation; thorough: depth 2), and every term with a "
+        "composite operand is replayed twice: result observed once, and operands observed with ers.Unwind before use / result / operands "
+        "again / result again (observation is pure). "
+        "histories = driver schedules over Add/Add(nil)/Add(nil *Stack)/Add(composite of fresh leaves)/Len/Resolve/Iterator/ReadOne "
+        "(all of length 6 resp. 5; quick: seeded samples) + schedules with HOLD steps (one Add parked inside its operand's own "
+        "Unwind()/Unwrap() while the other steps are issued from other goroutines and awaited by quiescence) + edge cover + random "
+        "longer ones, and concurrent runs of 2-4 goroutines and 4-goroutine bursts (plain and composite Adds), each validated by "
+        "CollectorLinTrace (Add of a composite is one atomic step; Len/Resolve linearizable, iterators and final Unwind hold exactly "
+        "the added errors)")
 
 
 def replay_saved(rep, binary, path):
     obj = json.load(open(path))["replay"]
     if "behaviour" in obj:
         replay.replay(rep, binary, ["replay"], [obj["behaviour"]["beh"]], shards=1, label="errors")
+    elif obj.get("schedule"):
+        rc, outs, err = harness.run(binary, ["script"], [dict(n=0, beh=obj["schedule"])], timeout=120)
+        o = next((x for x in outs if x.get("n") == 0), None)
+        if o is None or "infra" in o:
+            rep.infra_error("re-running the saved schedule failed: %s" % (o or err[-400:]))
+        elif "panic" in o:
+            rep.violation("collector/panic", "saved schedule still panics: %s" % o["panic"], obj)
+        else:
+            ok, info = validate_one(o["hist"])
+            if ok is False:
+                rep.violation(key_of(info), "history of the saved schedule still rejected: %s" % json.dumps(info)[:300], obj)
+            elif ok is None:
+                rep.infra_error("validation of the re-run schedule did not complete")
+            else:
+                rep.add_cases([o["hist"]])
     elif "history" in obj:
         ok, info = validate_one(obj["history"])
         if ok is False:
